@@ -22,7 +22,8 @@ ASSUMPTIONS = ["the SMT-LIB 2.6 signatures of Core, FixedSizeBitVectors and Arra
                "value equality of term and expression beyond operator identity is not decided"]
 EXHAUSTIVE = True
 LEVEL_TEXT = ("Exhaustive evaluation of an abstract sort model extracted from the writer against the SMT-LIB signatures: every operator x every mixture of 1-bit (Bool) and wider operands in every argument position x both parent "
-              "requirements is checked, which is exactly the quantifier of the property's well-sortedness clause and is unreachable by sampling. Operator identity is checked per variant; term value equality is not decided.")
+              "requirements is checked, which is exactly the quantifier of the property's well-sortedness clause and is unreachable by sampling. Operator identity is checked per variant; term value equality is not decided."
+              " No exit of the identifier test may answer 'simple' before every character was tested.")
 LEVEL_NOTE = "Oracle = SMT-LIB 2.6 signatures; the abstract model (DESIGN appendix B) is the trusted part; degenerate full-range slices are excluded by a who-may-construct rule."
 TECHNIQUE = "table + boolean-formula extraction, exhaustive finite-domain sort checking against an SMT-LIB signature oracle; who-may-construct and alphabet-subset rules"
 
